@@ -109,14 +109,19 @@ class PolyOuter:
             a, b = self.a, self.b
             ctx = ex.ctx
             site = ex.site("outer_reshape")
-            ex.oblige(f"pre({site}).second_operand_0d", ndim(b.shape) == 0, "precondition", node)
             ex.oblige(f"pre({site}).target_shape", args[0].term == sconcat(a.shape, b.shape), "precondition", node)
             fa = _freeze(a)
             r = Poly(ctx, ctx.fresh("outer"), shape=args[0].term, region=Region("fresh", "outer"))
             r.owndata = z3.BoolVal(True)
             ctx.assume(r.wf(ctx))
             ctx.assume(ctx.forall_range(0, r.N, lambda t: keyok(r.row(t), r.D)))
-            ctx.assume(ctx.forall_idx(lambda i: r.val(i) == pmul(pconst(_num(fa(i))), b.val(the_idx(b.shape))), args[0].term))
+            if z3.eq(b.shape, shp0):
+                ctx.assume(ctx.forall_idx(lambda i: r.val(i) == pmul(pconst(_num(fa(i))), b.val(the_idx(b.shape))), args[0].term))
+            else:
+                # element (i ++ j) of outer(a, b).reshape(a.shape + b.shape) is a[i] * b[j]
+                from engine.polymodel import ileft, iright
+                sa, sb = a.shape, b.shape
+                ctx.assume(ctx.forall_idx(lambda p_: r.val(p_) == pmul(pconst(_num(fa(ileft(p_, sa, sb)))), b.val(iright(p_, sa, sb))), args[0].term))
             r.outer_of = (a, b)
             return r
         raise U(f"outer product .{attr}", node)
@@ -174,14 +179,14 @@ class Call(Contract):
             out = env["out"]
             if not isinstance(out, Poly):
                 return [("accumulator_is_a_polynomial", z3.BoolVal(False))]
-            S = g["P"].shape
+            S = g.get("ST", g["P"].shape)
             return [("shape", out.shape == S),
                     ("rows_storable", ex.ctx.forall_range(0, out.N, lambda t: keyok(out.row(t), out.D))),
                     ("partial_sum_of_the_first_k_terms", ex.ctx.forall_idx(lambda i: out.val(i) == g["SP"](k, i), S))]
 
         def havoc(ex, env, k):
             P = ex.ghost["P"]
-            o = Poly(ex.ctx, ex.ctx.fresh("acc"), shape=P.shape, region=Region("fresh", "accumulator"))
+            o = Poly(ex.ctx, ex.ctx.fresh("acc"), shape=ex.ghost.get("ST", P.shape), region=Region("fresh", "accumulator"))
             o.owndata = z3.BoolVal(True)
             ex.ctx.assume(o.wf(ex.ctx))
             env["out"] = o
@@ -269,6 +274,7 @@ class Call(Contract):
         yield from self._numeric_cases()
         yield from self._substitution_cases()
         yield from self._array_cases()
+        yield from self._array_substitution_cases()
 
     def _loops_array(self, D):
         def inv(ex, env, k):
@@ -288,6 +294,78 @@ class Call(Contract):
             from engine.logic import unfold_at
             return [unfold_at(k + 1)]
         return {3: LoopSpec(inv, havoc, modifies=mods, peel=1, ghost=ghost)}
+
+    def _array_substitution_cases(self):
+        """polynomial substitution with ARRAY-valued polynomial arguments: result[i ++ j] = sum_t C(t, i) * prod_d a_d[j] ** E(t, d) in the ring"""
+        from engine.logic import PV, unfold_at, bshape, bok, proj
+        from engine.polymodel import concat_axioms, ileft, iright
+        from contracts.division import ring_axioms, pconst, pzero
+        from contracts.dispatchfn import padd, pmul
+        from contracts.multiply import ppow, pone
+        for label, D, args, kwargs in (("D1.polyarray_positional", 1, (0,), {}), ("D2.polyarrays_positional", 2, (0, 1), {}),
+                                       ("D2.polyarrays_keyword", 2, (), {"q1": 1, "q0": 0})):
+            def make_env(ex, D=D, args=args, kwargs=kwargs):
+                ctx = ex.ctx
+                for a in shape_axioms(ctx) + extra_shape_axioms(ctx) + mono_axioms(ctx) + order_axioms(ctx) + eok_axioms() + ring_axioms(ctx) \
+                        + concat_axioms(ctx):
+                    ctx.assume(a)
+                P = Poly(ctx, "poly", D=D, region=Region("caller", "poly"))
+                ctx.assume(P.wf(ctx))
+                ctx.assume(ctx.forall_range(0, P.N, lambda t: keyok(P.row(t), P.D)))
+                P.concrete_names = list(NAMES[:D])
+                for d in range(D):
+                    ctx.assume(nat(P.names, d) == as_name(ex, NAMES[d]))
+                subs = []
+                for d in range(D):
+                    q = Poly(ctx, f"sub{d}", region=Region("caller", f"sub{d}"))
+                    ctx.assume(q.wf(ctx))
+                    ctx.assume(ctx.forall_range(0, q.N, lambda t, q=q: keyok(q.row(t), q.D)))
+                    subs.append(q)
+                T = subs[0].shape
+                for q in subs[1:]:
+                    ctx.assume(bok(T, q.shape))
+                    T = bshape(T, q.shape)
+                ST = sconcat(P.shape, T)
+                x = z3.Const(ctx.fresh("x"), PV)
+                ctx.assume(z3.And(pconst(z3.RealVal(1)) == pone, z3.ForAll([x], pmul(pone, x) == x), z3.ForAll([x], ppow(x, 0) == pone)))
+                SP = ctx.func("SPa", I, Idx, PV)
+                k, p = z3.Int(ctx.fresh("k")), z3.Const(ctx.fresh("p"), Idx)
+
+                def term(t, j):
+                    out = None
+                    for d in range(D):
+                        jd = j if z3.eq(subs[d].shape, T) else proj(j, T, subs[d].shape)
+                        f = ppow(subs[d].val(jd), expo(P.row(t), d))
+                        out = f if out is None else pmul(out, f)
+                    return out
+                ctx.assume(z3.ForAll([p], SP(0, p) == pzero))
+                ctx.assume(z3.ForAll([k, p], z3.Implies(k >= 1, SP(k, p) == padd(SP(k - 1, p), pmul(pconst(P.C(k - 1, ileft(p, P.shape, T))),
+                                                                                                    term(k - 1, iright(p, P.shape, T))))),
+                                     patterns=[z3.MultiPattern(SP(k, p), unfold_at(k))]))
+                ctx.assume(unfold_at(1))
+                ex.ghost = {"P": P, "SP": SP, "ST": ST, "subs": subs}
+                ex.hooks = {}
+                return {"poly": P, "args": tuple(subs[v] for v in args), "kwargs": {n: subs[v] for n, v in kwargs.items()}}
+
+            def check(out):
+                ex, ctx = out.ex, out.ctx
+                g = ex.ghost
+                P, SP, ST = g["P"], g["SP"], g["ST"]
+                ex.oblige(f"raises.nothing[{out.exc}:{out.value}]" if out.kind == "raise" else "raises.nothing", z3.BoolVal(out.kind == "return"), "post")
+                if out.kind != "return":
+                    return
+                r = out.value
+                src = getattr(r, "tonumpy_of", None) if isinstance(r, Arr) else r
+                ok = isinstance(src, Poly)
+                ex.oblige("post.polynomial_or_its_constant_array", z3.BoolVal(ok), "post")
+                if not ok:
+                    return
+                ex.oblige("post.shape_is_poly_shape_plus_broadcast_argument_shape", src.shape == ST, "post")
+                ex.oblige("post.value_is_sum_over_terms_of_coefficient_times_argument_powers",
+                          ctx.forall_idx(lambda p: src.val(p) == SP(P.N, p), ST), "post",
+                          note="element (i ++ j): sum_t C(t, i) * prod_d a_d[j] ** E(t, d) in the polynomial ring")
+            loops = self._loops_poly(D)
+            yield Case(label, make_env, check, loops=loops)
 
     def _array_cases(self):
         """numeric evaluation at ARRAY points: result[i ++ j] = sum_t C(t, i) * prod_d a_d[j]**E(t, d), shape poly.shape + broadcast(arg shapes)"""
